@@ -17,3 +17,25 @@ Qed.
 
 Lemma seq_mul_single (x : Z) n : seq_mul [x] n = repeat x (Z.to_nat n).
 Proof. unfold seq_mul. induction (Z.to_nat n); simpl; congruence. Qed.
+
+(* str.encode('utf-16le') on a list of code points (scalar values; lone surrogates make Python raise) *)
+Definition utf16_units (cp : Z) : list Z :=
+  if cp <? 0x10000 then [cp] else let c := cp - 0x10000 in [0xD800 + c / 0x400; 0xDC00 + c mod 0x400].
+Definition utf16le_encode (s : list Z) : list Z :=
+  flat_map (fun cp => flat_map (fun u => [u mod 256; u / 256]) (utf16_units cp)) s.
+Definition scalar (cp : Z) : Prop := 0 <= cp < 0x110000 /\ ~ (0xD800 <= cp < 0xE000).
+
+Lemma flat_map_no_c (c : Z) (b l : list Z) : ~ In c l -> flat_map (fun x => if x =? c then b else [x]) l = l.
+Proof.
+  induction l as [|y l IH]; intros Hn; [reflexivity|]. cbn [flat_map].
+  destruct (y =? c) eqn:Ey; [exfalso; apply Hn; left; lia|]. cbn [app]. f_equal. apply IH. intros H. apply Hn. now right.
+Qed.
+
+Lemma str_replace1_idem s c b : ~ In c b -> str_replace1 (str_replace1 s c b) c b = str_replace1 s c b.
+Proof.
+  intros Hn. unfold str_replace1. induction s as [|x s IH]; [reflexivity|].
+  cbn [flat_map]. rewrite flat_map_app, IH. f_equal.
+  destruct (x =? c) eqn:E.
+  - now apply flat_map_no_c.
+  - cbn [flat_map]. rewrite E. reflexivity.
+Qed.
